@@ -13,7 +13,7 @@ LEVEL = "exploration"
 WORKERS = {"quick": 8, "thorough": 16}
 BUDGET = {"quick": 150, "thorough": 420}
 MIN_NONTRIVIAL = {"quick": 2000, "thorough": 12000}
-REQUIRED_HOOKS = ["evaluate:I", "evaluate:C", "resolve", "resolve-reuse", "macro-scope", "declaration"]
+REQUIRED_HOOKS = ["evaluate:I", "evaluate:C", "resolve", "resolve-reuse", "macro-scope", "failing-body-scope", "declaration"]
 RULE = (
     "Configurations over the alphabet {a,b,c}: every assignment {unbound, scalar, nested map} to the nine dotted names L+prefix (L in {'', p, p.q}; prefix in "
     "{a, a.b, a.b.c}), x package in {none, p, p.q}, x every reference a, a.b, a.b.c (enumerated completely in the thorough tier, sampled in the quick tier). Every scalar "
@@ -31,6 +31,12 @@ ASSUMPTIONS = [
 PREFIXES = [("a",), ("a", "b"), ("a", "b", "c")]
 LEVELS = [(), ("p",), ("p", "q")]
 NAMES = [lv + pf for lv in LEVELS for pf in PREFIXES]
+# a third package level (p.q.r): complete for configurations with at most two bound names, sampled otherwise
+NAMES12 = NAMES + [("p", "q", "r") + pf for pf in PREFIXES]
+
+
+def names_of(assign):
+    return NAMES if len(assign) == len(NAMES) else NAMES12
 KINDS = ("-", "s", "m")  # unbound, scalar, map
 
 
@@ -86,7 +92,7 @@ def agrees(out, exp):
 
 def check_config(acc, assign, package, ref):
     bindings = {}
-    for i, (name, kind) in enumerate(zip(NAMES, assign)):
+    for i, (name, kind) in enumerate(zip(names_of(assign), assign)):
         if kind != "-":
             bindings[name] = make_value(name, kind, 1000 * (i + 1))
     if not bindings:
@@ -132,8 +138,8 @@ def check_reuse_config(acc, rnd, package, ref, steps=4):
     src = ".".join(ref)
     seq = []
     for _ in range(steps):
-        assign = tuple(rnd.choice(KINDS) if rnd.random() < 0.3 else "-" for _ in NAMES)
-        bindings = {name: make_value(name, kind, 1000 * (i + 1) + 7 * len(seq)) for i, (name, kind) in enumerate(zip(NAMES, assign)) if kind != "-"}
+        assign = tuple(rnd.choice(KINDS) if rnd.random() < 0.3 else "-" for _ in NAMES12)
+        bindings = {name: make_value(name, kind, 1000 * (i + 1) + 7 * len(seq)) for i, (name, kind) in enumerate(zip(NAMES12, assign)) if kind != "-"}
         if bindings:
             seq.append((assign, bindings))
     if len(seq) < 2:
@@ -172,6 +178,50 @@ def check_reuse_config(acc, rnd, package, ref, steps=4):
                     {"kind": "resolve-reuse", "assigns": [list(a) for a, _ in seq[: step + 1]], "package": package, "ref": list(ref), "runner": r},
                 )
             break  # after a wrong step (stale, or a listed finding seen by check_config) later steps say nothing new
+
+
+FAILING_BODY_SCOPES = [
+    "[0, 1].exists(x, 1 / x == 1) && x == 10", "[1, 0].exists(x, 1 / x == 1) && x == 10", "[2, 0].all(x, 2 / x == 2) || x == 10", "([2, 0].map(x, 4 / x)[0] == 2 || true) ? x : -1",
+    "([0, 2].map(x, 4 / x)[0] == 2 || true) ? x : -1", "([0].filter(x, 1 / x > 0).size() > 0 || true) ? x + y : -1", "([1, 0].exists_one(x, 1 / x == 1) || true) && x == 10",
+    "[0, 1].exists(x, 1 / x == 1) ? x : -x", "[[0], [1]].exists(x, x.all(y, 1 / y == 1)) ? y : -y", "[[1], [0]].exists(x, x.all(y, 1 / y == 1)) ? y + x2 : -y",
+    "[0, 1].exists(y, [y].exists(x, 1 / x == 1)) && x == 10 && y == 20", "(true || [0].map(x, 1 / x)[0] > 0) && x == 10", "[1, 2].map(x, [0, x].exists(y, 1 / y == 1) ? y : -y)",
+    "[0, 5].exists(x, 5 / x == 1) ? [x, x + 1].map(x, x * 2) : [x]", "([{}].map(x, x.nokey)[0] == 1 || true) ? x : -1", "([[]].map(x, x[0])[0] == 1 || true) ? x + y : 0",
+]
+
+
+def failing_body_scopes(acc, ctx):
+    """A macro's iteration variable shadows an outer variable inside the body ONLY -- also when the body fails for some element and
+    the failure is absorbed by exists/all/||/&&/?: -- so the outer binding is what the same name denotes after the macro."""
+    c = core.celpy()
+    parser = c.CELParser(tree_class=c.TranspilerTree)
+    from .. import larkconv
+
+    outer = {"x": ("int", 10), "y": ("int", 20), "x2": ("int", 30)}
+    for i, src in enumerate(FAILING_BODY_SCOPES):
+        if not ctx.mine(i):
+            continue
+        node = larkconv.with_simple_literals(larkconv.conv(parser.parse(src)))
+        try:
+            exp = ("V", lang.Model(outer).ev(node))
+        except lang.ModelErr:
+            exp = ("E",)
+        except lang.Unspec:
+            continue
+        acc.hook("macro-scope")
+        acc.hook("failing-body-scope")
+        acc.nt(["failing-body", src])
+        for r in "IC":
+            out = core.api_eval(r, src, MV.cel_env(outer))
+            acc.hook("evaluate:" + r)
+            acc.evaluations += 1
+            ok = agrees(out, exp)
+            acc.cell("failing-body-scope", r, exp[0], "ok" if ok else "differ")
+            if not ok:
+                acc.violation(
+                    f"{r} macro-scope failing-body outer-name-after-the-macro obs={diag.oclass(out).split('@')[0]} exp={'E' if exp[0] == 'E' else 'V:' + exp[1][0]}",
+                    f"{'interpreted' if r == 'I' else 'compiled'}: {src!r} with outer x=10, y=20, x2=30 gave {core.jkey(out)[:80]}, expected {str(exp)[:80]}",
+                    {"kind": "macro", "src": src, "outer": MV.enc_env(outer), "runner": r, "expected": "E" if exp[0] == "E" else MV.enc(exp[1])},
+                )
 
 
 # ---------------------------------------------------------------- declarations
@@ -336,9 +386,11 @@ def run(ctx):
     rnd = ctx.rnd
     core.celpy()
     declaration_cases(acc, ctx)
+    failing_body_scopes(acc, ctx)
     macro_cases(acc, ctx, ctx.scale(2500, 16000), keep=0.75)
     refs = [("a",), ("a", "b"), ("a", "b", "c")]
     packages = ["", "p", "p.q"]
+    packages4 = packages + ["p.q.r"]
     if ctx.thorough:
         i = 0
         done = True
@@ -355,32 +407,37 @@ def run(ctx):
                     check_config(acc, assign, package, ref)
         if done:
             acc.exhaustive.append("all 3^9 assignments x 3 packages x 3 references")
+        for _ in range(ctx.scale(0, 160000)):
+            if ctx.time_left() < 0.2 * ctx.budget_s:
+                break
+            assign = tuple(rnd.choice(KINDS) if rnd.random() < 0.35 else "-" for _ in NAMES12)
+            check_config(acc, assign, rnd.choice(packages4), rnd.choice(refs))
     else:
         n = ctx.scale(3000, 0)
         for j in range(n):
             # bias towards few bound names (the interesting competitions)
-            assign = tuple(rnd.choice(KINDS) if rnd.random() < 0.45 else "-" for _ in NAMES)
-            check_config(acc, assign, rnd.choice(packages), rnd.choice(refs))
+            assign = tuple(rnd.choice(KINDS) if rnd.random() < 0.4 else "-" for _ in NAMES12)
+            check_config(acc, assign, rnd.choice(packages4), rnd.choice(refs))
         # and every configuration with at most two bound names (complete)
         i = 0
-        for a_i in range(len(NAMES)):
-            for b_i in range(a_i, len(NAMES)):
+        for a_i in range(len(NAMES12)):
+            for b_i in range(a_i, len(NAMES12)):
                 for ka in ("s", "m"):
                     for kb in ("s", "m"):
                         i += 1
                         if not ctx.mine(i):
                             continue
-                        assign = ["-"] * len(NAMES)
+                        assign = ["-"] * len(NAMES12)
                         assign[a_i] = ka
                         assign[b_i] = kb
-                        for package in packages:
+                        for package in packages4:
                             for ref in refs:
                                 check_config(acc, tuple(assign), package, ref)
-        acc.exhaustive.append("all configurations with at most two bound names x 3 packages x 3 references")
+        acc.exhaustive.append("all configurations with at most two bound names (12 names, 3 package levels) x 4 packages x 3 references")
     for _ in range(ctx.scale(1600, 64000)):
         if ctx.expired():
             break
-        check_reuse_config(acc, rnd, rnd.choice(packages), rnd.choice(refs))
+        check_reuse_config(acc, rnd, rnd.choice(packages4), rnd.choice(refs))
     if ctx.thorough:
         macro_cases(acc, ctx, ctx.scale(0, 48000))
     acc.sample({"bindings": {"a": "scalar#1000", "a.b": "map#2000"}, "package": "p", "reference": "a.b.c"})
@@ -398,7 +455,7 @@ def replay(case):
         prog = env.program(env.compile(".".join(ref)))
         lines, ok = [], True
         for k, assign in enumerate(case["assigns"]):
-            bindings = {name: make_value(name, kind, 1000 * (i + 1) + 7 * k) for i, (name, kind) in enumerate(zip(NAMES, assign)) if kind != "-"}
+            bindings = {name: make_value(name, kind, 1000 * (i + 1) + 7 * k) for i, (name, kind) in enumerate(zip(names_of(assign), assign)) if kind != "-"}
             exp, _ = model_resolve(bindings, package, ref)
             benv = {".".join(n): MV.to_cel(v) for n, v in bindings.items()}
             try:
